@@ -271,9 +271,11 @@ def shrink_candidates(case):
 LEVEL_TEXT = ("Machine-checked Coq theorems on the model of TimeScale.ticks for ALL domains in years 2..9997 and counts m >= 1: "
               "ticks never raise or run out of fuel, are strictly increasing, lie inside the domain, and every tick is a "
               "boundary of the unit the method table chose (hence of every finer unit: whole seconds, minutes, hours, "
-              "midnight, first of month, 1 January). NOT proved (partial): the bounds on the number of ticks and on the "
-              "ratio of consecutive gaps; they are checked by the property oracle on every generated case.")
+              "midnight, first of month, 1 January); all consecutive gaps lie in [g, 2g] for one g (C16_tt_gap_ratio, every row of the "
+              "method table and both fall-backs); m/2.4 - 1 <= number of ticks <= 2.4 m + 1 whenever the span is at least m ms "
+              "(C16_tt_count); a shorter domain gets one tick per millisecond (C16_tt_short_domain). The property oracle checks "
+              "the same clauses on the implementation's output for every generated case.")
 LEVEL_NOTE = ("Trusted: Coq kernel; extraction re-checked on a slice by vm_compute; the correspondence harness. Modelled, not "
               "verified: labella/scale.py and d3_time.py; doubles are modelled by exact rationals (ambiguity bands at the "
               "float decision points are counted, not compared).")
-TECHNIQUE = "Coq proof (on top of the C17 interval theory) + model/implementation correspondence + property oracle for the unproved count/gap bounds"
+TECHNIQUE = "Coq proof (C17 interval theory; generic tick-set enumeration theory with per-row gap bounds; bisect-threshold arithmetic) + model/implementation correspondence"
